@@ -68,12 +68,15 @@ class CCQR(QR):
 
         n, m = basis_matrix.shape  # We transpose basis_matrix below
 
-        if self.sensor_costs is None:
-            self.sensor_costs = np.zeros(n)
+        # Do not store the default on the instance: a later fit on data with a
+        # different number of sensors must get a default of the right length.
+        sensor_costs = self.sensor_costs
+        if sensor_costs is None:
+            sensor_costs = np.zeros(n)
 
-        if len(self.sensor_costs) != n:
+        if len(sensor_costs) != n:
             raise ValueError(
-                f"Dimension of sensor_costs ({len(self.sensor_costs)}) "
+                f"Dimension of sensor_costs ({len(sensor_costs)}) "
                 f"does not match number of sensors in data ({n})"
             )
 
@@ -83,7 +86,7 @@ class CCQR(QR):
         k = min(m, n)
 
         for j in range(k):
-            u, i_piv = qr_reflector(R[j:, j:], self.sensor_costs[p[j:]])
+            u, i_piv = qr_reflector(R[j:, j:], sensor_costs[p[j:]])
             # Track column pivots
             i_piv += j
             p[[j, i_piv]] = p[[i_piv, j]]
